@@ -13,6 +13,7 @@ from vf.gast import grammar_text, shrink_rules, tup, walk
 from vf.refpeg import Ref
 
 PROPERTY = 'C09'
+HISTORY_CONFIRM = True   # a failure that needs the process history is confirmed by re-running its shard from the seed
 RULE = ('generated grammars whose patterns match no whitespace (no any-char, no skip-to), tokens incl. words with namechars, lower- and '
         'upper-case rules, constants, $; a configuration drawn from whitespace {default, /[ \\t]+/, \'\'} x nameguard {unset,on,off} x '
         'namechars {\'\', \'-\', \'$_\'} x ignorecase x comments/eol_comments given as directives or as parse-time settings; inputs are '
